@@ -73,3 +73,21 @@ fn get_offset(v: i32, min_max: (i32, i32), decim: i32) -> i32 {
 
     -v / decim + extra
 }
+
+/// Verification hook: exposes the coordinate offset used by graph contraction.
+#[cfg(reinterpretcat_vrp_verif)]
+pub fn verif_get_offset(v: i32, min_max: (i32, i32), decim: i32) -> i32 {
+    get_offset(v, min_max, decim)
+}
+
+/// Verification hook: exposes graph contraction with an explicit decimation.
+#[cfg(reinterpretcat_vrp_verif)]
+pub fn verif_contract_graph<C, I, S, F>(context: &C, network: &mut Network<C, I, S, F>, decimation: (i32, i32))
+where
+    C: Send + Sync,
+    I: Input,
+    S: Storage<Item = I>,
+    F: StorageFactory<C, I, S>,
+{
+    contract_graph(context, network, decimation)
+}
